@@ -507,3 +507,12 @@ def x13(cx: Cx, ob: Ob) -> None:
     from ..rules import no_fields_set_dependence
 
     no_fields_set_dependence(cx, ob)
+
+
+@obligation("C01-X16", "incremental construction (shared with C05-D3/D5/D6): _match_record compares the full cover through _eq/_in, _merge adds names by exact membership, add_record rejects ambiguous records - otherwise converters built with add_record / chain own URI prefixes the supplied records do not give them", floor=8)
+def x16(cx: Cx, ob: Ob) -> None:
+    from .c05 import check_match_record, check_merge, d3 as add_record_guards
+
+    check_match_record(cx, ob)
+    check_merge(cx, ob)
+    add_record_guards(cx, ob)
